@@ -61,6 +61,9 @@ struct World {
     std::vector<IntEv> interrupts;         //!< on the CURRENT template object
     unsigned interrupt_nulls{0};           //!< nulls justified by an interrupt, on the current template object
     std::vector<std::pair<COutPoint, RefCoin>> coins; //!< confirmed spendable coins not yet used
+    std::vector<std::pair<COutPoint, RefCoin>> big_coins; //!< mature 50 BTC base coinbases: spent by transactions paying 5..25 BTC as fee
+    std::vector<std::pair<CTransactionRef, CAmount>> big_pool; //!< big-fee transactions currently in the pool
+    unsigned removals{0};
     CAmount pool_fees{0};                  //!< sum of fees of accepted, still unconfirmed transactions (all independent, all template-able)
     uint64_t pool_last_change{0};          //!< end stamp of the last pool/tip change
     unsigned blockno{0};
@@ -94,7 +97,7 @@ struct World {
         VCHECK(d.processed && sim.TipHash() == blk->GetHash(), "c65.generator-block", "harness block not connected", d.verdict ? StateStr(*d.verdict) : "");
         tips.back().e_replaced = e;
         tips.push_back(TipIv{blk->GetHash(), b, UINT64_MAX, int64_t(blk->nTime)});
-        if (with_pool && !txs.empty()) { pool_fees = 0; submits.clear(); }
+        if (with_pool && !txs.empty()) { pool_fees = 0; submits.clear(); big_pool.clear(); }
         pool_last_change = e;
     }
     bool Submit(CAmount fee)
@@ -112,6 +115,39 @@ struct World {
         if (ok) pool_fees += fee;
         pool_last_change = e;
         return ok;
+    }
+    /** a transaction spending a whole 50 BTC coinbase and paying `fee` (5..25 BTC): template fee totals around 2^31 and 2^32 satoshi */
+    bool SubmitBig(CAmount fee)
+    {
+        if (big_coins.empty()) return false;
+        auto c = big_coins.back();
+        big_coins.pop_back();
+        uint64_t b = Stamp();
+        CTransactionRef tx = MakeTransactionRef(sim.MakeTx({c}, {CTxOut(c.second.value - fee, sim.keys.Script(SpkType::P2WPKH, 5))}, 0, 0xfffffffd));
+        MempoolAcceptResult res = WITH_LOCK(cs_main, return sim.chainman().ProcessTransaction(tx));
+        uint64_t e = Stamp();
+        bool ok = res.m_result_type == MempoolAcceptResult::ResultType::VALID;
+        submits.push_back(SubmitEv{b, e, fee, ok});
+        if (ok) { pool_fees += fee; big_pool.emplace_back(tx, fee); }
+        pool_last_change = e;
+        return ok;
+    }
+    /** a big-fee transaction leaves the pool while the tip stays (what expiry / eviction do): the fee total drops, possibly across 2^31 */
+    bool RemoveBig()
+    {
+        if (big_pool.empty()) return false;
+        size_t j = s.index(big_pool.size());
+        auto [tx, fee] = big_pool[j];
+        big_pool.erase(big_pool.begin() + j);
+        // the model's "fees present since before S" must not count it any more (conservative for the liveness check)
+        for (size_t i = 0; i < submits.size(); ++i) if (submits[i].accepted && submits[i].fee == fee) { submits.erase(submits.begin() + i); break; }
+        Stamp();
+        { LOCK2(cs_main, sim.mempool().cs); sim.mempool().removeRecursive(*tx, MemPoolRemovalReason::EXPIRY); }
+        pool_last_change = Stamp();
+        pool_fees -= fee;
+        removals++;
+        Notify();
+        return true;
     }
 };
 
@@ -152,12 +188,20 @@ void Body(Src& s, Stats& st, bool tsan_variant)
             VCHECK(d.processed && sim.TipHash() == blk->GetHash(), "c65.generator-block", "funding block not connected");
             for (uint32_t k = 0; k < 12; ++k) w.coins.emplace_back(COutPoint(f->GetHash(), k), RefCoin{each, outs[k].scriptPubKey, 105, false});
             w.tips.push_back(TipIv{blk->GetHash(), 0, UINT64_MAX, int64_t(blk->nTime)});
+            for (int h = 2; h <= 5; ++h) { // coinbases of heights 2..5 are mature for the next block (height 106)
+                const auto& bh = sim.block_store.at(base[h - 1]);
+                w.big_coins.emplace_back(COutPoint(bh->vtx[0]->GetHash(), 0), RefCoin{bh->vtx[0]->vout[0].nValue, bh->vtx[0]->vout[0].scriptPubKey, h, true});
+            }
             w.mock = int64_t(blk->nTime) + 60;
             SetMockTime(w.mock);
         }
         w.mining = interfaces::MakeMining(sim.m_node);
         // optional initial pool content, then the first template
         if (s.chance(100)) w.Submit(1000 + CAmount(s.range<unsigned>(0, 4)) * 1000);
+        const bool big_mode = s.chance(110); // fee totals of 5..70 BTC: around 2^31 (21.47 BTC) and 2^32 (42.95 BTC) satoshi
+        const std::vector<CAmount> BIG{CAmount{15} * COIN, CAmount{10} * COIN, CAmount{25} * COIN, CAmount{5} * COIN, CAmount{20} * COIN, CAmount{8} * COIN, CAmount{22} * COIN};
+        if (big_mode) { unsigned n0 = s.range<unsigned>(0, 2); for (unsigned i = 0; i < n0; ++i) w.SubmitBig(s.pick(BIG)); }
+        bool cross_up = false, cross_down = false;
         std::unique_ptr<interfaces::BlockTemplate> tmpl = w.mining->createNewBlock({}, /*cooldown=*/false);
         VCHECK(tmpl != nullptr, "c65.generator-template", "createNewBlock returned nothing");
         sched::Arm(sched_seed, intensity);
@@ -181,12 +225,15 @@ void Body(Src& s, Stats& st, bool tsan_variant)
             case 4: threshold = 1; break;
             default: threshold = step * 3; break;
             }
+            if (big_mode && thr_mode != 0 && s.chance(100)) threshold = s.pick<CAmount>({COIN, 5 * COIN, 12 * COIN});
             // -- events before the wait starts
             unsigned pre = s.range<unsigned>(0, 7);
             if (pre == 1) w.Connect(false);
             else if (pre == 2) w.Connect(true);
             else if (pre == 3) w.Submit(step);
             else if (pre == 4) { uint64_t b = Stamp(); tmpl->interruptWait(); w.interrupts.push_back(IntEv{b, Stamp()}); }
+            else if (pre == 6 && big_mode) w.SubmitBig(s.pick(BIG));
+            else if (pre == 7 && big_mode) w.RemoveBig();
             else if (pre == 5) w.Advance(s.pick<int64_t>({1, 61, 1201, 700, 1140})); // start + 60 + 1140 = exactly 20 min: not yet "over 20 minutes"
             // -- the waiter
             WaitResult wr;
@@ -213,7 +260,8 @@ void Body(Src& s, Stats& st, bool tsan_variant)
             for (unsigned i = 0; i < nev && !wr.done.load(); ++i) {
                 sched::Point("driver");
                 unsigned k = s.range<unsigned>(0, 9);
-                if (k <= 2) w.Submit(s.pick<CAmount>({step, step - 1, step + 1, step * 3, 1000}));
+                if (big_mode && s.chance(90)) { if (s.boolean()) w.SubmitBig(s.pick(BIG)); else w.RemoveBig(); }
+                else if (k <= 2) w.Submit(s.pick<CAmount>({step, step - 1, step + 1, step * 3, 1000}));
                 else if (k <= 4) w.Connect(s.boolean());
                 else if (k == 5) { uint64_t b = Stamp(); cur->interruptWait(); w.interrupts.push_back(IntEv{b, Stamp()}); }
                 else w.Advance(s.pick<int64_t>({1, 2, 61, 1201, 5, 700, 1139, 4000})); // 61+1139 = exactly 20 min after the start: not yet "over 20 minutes"
@@ -312,6 +360,11 @@ void Body(Src& s, Stats& st, bool tsan_variant)
                 }
                 if (tip_differs_at_S) st.cls("tip-differed-at-start");
             }
+            {
+                const CAmount B31 = CAmount{1} << 31;
+                if (prev_fees < B31 && w.pool_fees >= B31) cross_up = true;
+                if (prev_fees >= B31 && w.pool_fees < B31) cross_down = true;
+            }
             st.mix(uint64_t(pre)); st.mix(uint64_t(thr_mode)); st.mix(uint64_t(timeout_ms < 0 ? 7 : (timeout_ms < 2 ? 0 : (timeout_ms < 2000 ? 1 : 2)))); st.mix(uint64_t(nev)); st.mix(uint64_t(wr.tmpl ? 1 : 0));
             st.note("round ", round, ": timeout_ms=", timeout_ms, " threshold=", threshold == MAX_MONEY ? -1 : threshold, " pre=", pre, " events=", nev, " -> ",
                     wr.tmpl ? (wr.tmpl->getBlockHeader().hashPrevBlock == prev_parent ? "same-tip template" : "new-tip template") : "null", " [S=", S, " R=", R, " T=", wr.t_start, "..", wr.t_end, "]");
@@ -325,6 +378,11 @@ void Body(Src& s, Stats& st, bool tsan_variant)
         sched::Disarm();
         for (auto& o2 : outcomes) st.cls(o2);
         if (any_inside) st.cls("event-inside-wait-window");
+        if (big_mode) st.cls("big-fees");
+        if (cross_up) st.cls("fees-cross-2^31-up");
+        if (cross_down) st.cls("fees-cross-2^31-down");
+        if (w.removals) st.cls("big-fee-tx-removed");
+        st.mix(uint64_t(big_mode * 4 + cross_up * 2 + cross_down));
         st.mix(uint64_t(outcomes.size()));
         // non-trivial: at least one driver event provably fell inside a wait window (began after S, ended before R) and >= 2 rounds were conclusive
         st.nontrivial = any_inside && conclusive >= 2;
@@ -340,7 +398,8 @@ void Body(Src& s, Stats& st, bool tsan_variant)
     "1..4 rounds on a regtest node (mock clock): waiter thread calls waitNext(timeout in {0,1ms,0.5s,1.5s,30s,10min,1h,forever}, fee_threshold in "     \
     "{default,0,1,f,f+1,3f}) while the driver performs 0..4 events with seeded gaps: submit tx with fee {f,f-1,f+1,3f}, connect block (empty / "       \
     "mining the pool), interruptWait, mock-time advance {1s..20min+1s..past deadline}; events before the wait (tip already changed, pending "         \
-    "interrupt, fees already there); the wait is ended by passing the deadline in mock time or by an interrupt. oracle: stamp-interval predicate "    \
+    "interrupt, fees already there); in ~40% of the cases big-fee txs (5..25 BTC each, totals around 2^31 and 2^32 sat) are added and removed again "  \
+    "(pool removal as by expiry/eviction, tip unchanged); the wait is ended by passing the deadline in mock time or by an interrupt. oracle: stamp-interval predicate " \
     "over the event log. non-trivial = an event provably inside a wait window and >= 2 conclusive rounds; distinct = per-round (pre-event, threshold " \
     "mode, timeout class, event count, outcome)"
 
